@@ -265,12 +265,14 @@ theorem query_case_insensitive (env : Env) (pruning : Int) (sv : Services) (s1 s
     ∧ (isAscii s1 = true → strUpper env (s1.map asciiLower) = strUpper env s1 ∧ strUpper env (s1.map asciiUpper) = strUpper env s1) :=
   ⟨cmdQuery_congr env pruning sv s1 s2 now, strUpper_case_insensitive env s1⟩
 
-/-- a server that registers under one spelling is found, at once, by a query under any spelling with the same `upper()` -/
+/-- a server that registers (an address that can be sent back) under one spelling is found, at once, by a query under
+any spelling with the same `upper()` -/
 theorem register_then_query_finds (env : Env) (pruning : Int) (sv : Services) (host port : Val) (s1 s2 : List Nat) (now : Int)
-    (hinv : Inv sv) (hp : 0 ≤ pruning) (hcase : strUpper env s1 = strUpper env s2) :
+    (hinv : Inv sv) (hp : 0 ≤ pruning) (hcase : strUpper env s1 = strUpper env s2)
+    (hsend : registerRefuses env (host, port) = false) :
     ∃ a, a ∈ answer pruning (cmdRegister env sv host (.tuple [.str s1]) port now).sv (.str (strUpper env s2)) now
       ∧ addrCode a = addrCode (host, port) := by
-  have hv := registered_view env sv host port s1 now hinv
+  have hv := registered_view env sv host port s1 now hinv hsend
   rw [hcase] at hv
   obtain ⟨a, hm, hc⟩ := mem_innerOf_of_view _ _ _ _ hv
   exact ⟨a, (query_members pruning _ _ now a).mpr ⟨now, hm, by omega⟩, hc⟩
